@@ -299,7 +299,14 @@ class SDMFSlotWriteProxy:
                                       salt)
         else:
             checkstring = checkstring_or_seqnum
-        self._testvs = [(0, len(checkstring), checkstring)]
+        if checkstring == b"":
+            # An empty checkstring means "the share must still be empty".
+            # A zero-length test vector would match any contents; leave
+            # _testvs empty so finish_publishing uses (0, 1, b"") instead,
+            # as MDMFSlotWriteProxy.set_checkstring does.
+            self._testvs = []
+        else:
+            self._testvs = [(0, len(checkstring), checkstring)]
 
 
     def get_checkstring(self):
